@@ -188,7 +188,7 @@ impl AdjustHeightsHeap {
 //@ impl: impl AdjustHeightsHeap
 //@ name: set_max_height_allowed
 //@ as: fn set_max_height_allowed(&mut self, new_mha: usize)
-//@ props: C19
+//@ props: C06 C19
 //@ contract:
 //@|     requires
 //@|         old(self).inv(),
@@ -207,7 +207,7 @@ impl AdjustHeightsHeap {
 //@ name: set_max_height_allowed
 //@ as: fn set_max_height_allowed__must_panic(&mut self, new_mha: usize)
 //@ panics: diverge
-//@ props: C19
+//@ props: C06 C19
 //@ contract:
 //@|     requires
 //@|         old(self).inv(),
@@ -332,7 +332,7 @@ impl RecomputeHeap {
 //@ rule R5: `Queue::default()` => `RQueue::default()` x1
 //@ rule R5: `queues[i].borrow().is_empty()` => `queues[i].is_empty()` x1
 //@ rule R4 re: `std::cmp::(min|max)\(` => `vx_\1_i32(` x*
-//@ props: C19 C06
+//@ props: C06 C19
 //@ loop 0:
 //@|     invariant queues@ == old(self).queues@, old(self).buckets_empty_from(new_max_height + 1), new_max_height < 0x7fff_fffe, self.height_lower_bound == old(self).height_lower_bound,
 //@ contract:
@@ -365,7 +365,7 @@ impl RecomputeHeap {
 //@ impl: impl RecomputeHeap
 //@ name: is_empty
 //@ as: fn is_empty(&self) -> (r: bool)
-//@ props: C19 C08
+//@ props: C05 C06 C08 C11 C19
 //@ contract:
 //@|     ensures r == (self.length == 0), // [empty-iff-length-zero]
 //@end
@@ -376,7 +376,7 @@ impl RecomputeHeap {
 //@ name: queue_for
 //@ as: fn queue_for(&mut self, height: usize) -> (r: &mut RQueue)
 //@ rule R5 re: `Ref::map\(\s*(?:self\.queues\.borrow\(\)|\(&self\.queues\))\s*,\s*\|queue\|\s*&queue\[height\]\s*\)` => `self.queues.get_mut(height).unwrap()` x1
-//@ props: C19
+//@ props: C05 C06 C11 C19
 //@ contract:
 //@|     requires height < old(self).queues@.len(),
 //@|     ensures
@@ -392,7 +392,7 @@ impl RecomputeHeap {
 //@ as: fn link(&mut self, node: NodeRef)
 //@ cells: queues
 //@ rule R5: `q.borrow_mut().push_back(node);` => `q.push_back(node);` x1
-//@ props: C19
+//@ props: C05 C06 C11 C19
 //@ contract:
 //@|     requires old(self).wf(), 0 <= node_height(&*node) <= old(self).mha(),
 //@|     ensures
@@ -409,7 +409,7 @@ impl RecomputeHeap {
 //@ as: fn insert(&mut self, node: NodeRef)
 //@ cells: height_lower_bound, length
 //@ tracing: yes
-//@ props: C19 C05
+//@ props: C05 C06 C11 C19
 //@ contract:
 //@|     requires
 //@|         old(self).wf(), old(self).lower_bound_ok(), old(self).length < usize::MAX,
@@ -431,7 +431,7 @@ impl RecomputeHeap {
 //@ cells: queues
 //@ panics: diverge
 //@ rule R5: `q.borrow_mut().push_back(node);` => `q.push_back(node);` x*
-//@ props: C19
+//@ props: C05 C06 C11 C19
 //@ contract:
 //@|     requires old(self).wf(), node_height(&*node) > old(self).mha() || node_height(&*node) < 0,
 //@|     ensures false, // [scheduling-a-node-outside-the-height-range-always-panics]
@@ -521,7 +521,7 @@ impl State {
 //@ name: set_max_height_allowed
 //@ as: fn set_max_height_allowed(&mut self, new_max_height: usize)
 //@ cells: status, adjust_heights_heap
-//@ props: C19
+//@ props: C06 C19
 //@ contract:
 //@|     requires
 //@|         !(old(self).status is Stabilising),
@@ -541,7 +541,7 @@ impl State {
 //@ as: fn set_max_height_allowed__stabilising_must_panic(&mut self, new_max_height: usize)
 //@ cells: status, adjust_heights_heap
 //@ panics: diverge
-//@ props: C19
+//@ props: C06 C19
 //@ contract:
 //@|     requires old(self).status is Stabilising, old(self).heaps_ready_for(new_max_height), new_max_height >= old(self).adjust_heights_heap.max_height_seen,
 //@|     ensures false, // [reconfiguring-during-stabilise-always-panics]
@@ -555,7 +555,7 @@ impl State {
 //@ cells: status, adjust_heights_heap
 //@ rule R8: `ah_heap.set_max_height_allowed(` => `ah_heap.set_max_height_allowed__must_panic(` x1
 //@ panics: diverge
-//@ props: C19
+//@ props: C06 C19
 //@ contract:
 //@|     requires old(self).adjust_heights_heap.inv(), new_max_height < 0x7fff_fffe, new_max_height < old(self).adjust_heights_heap.max_height_seen,
 //@|     ensures false, // [limit-below-height-in-use-always-panics]
@@ -598,7 +598,7 @@ impl State {
 //@ cells: status
 //@ cfg: release
 //@ tracing: yes
-//@ props: C19 C13
+//@ props: C07 C13 C19
 //@ contract:
 //@|     requires old(self).status is NotStabilising,
 //@end
@@ -613,7 +613,7 @@ impl State {
 //@ cfg: release
 //@ tracing: yes
 //@ panics: diverge
-//@ props: C19 C13
+//@ props: C07 C13 C19
 //@ contract:
 //@|     requires !(old(self).status is NotStabilising),     // called from a node function (Stabilising) or a handler (RunningOnUpdateHandlers)
 //@|     ensures false, // [nested-stabilise-always-panics-before-touching-anything]
